@@ -8,6 +8,8 @@ namespace Moc.Drv.SqliteD
 structure St where
   db : Db := {}
   hist : List Event := []
+  reopened : Bool := false   -- the database was closed and reopened in this history
+  clean : Bool := true       -- every answer so far agreed with the model's tables
 
 def errOf (j : Json) : Bool := (j.getObjValD "out").getObjValD "err" == Json.bool true
 
@@ -19,7 +21,7 @@ def step (st : St) (j : Json) : Except String (St × Drv.Out) := do
   else if op == "reopen" then
     o := { o with nontrivial := true }
     o := o.tag "op.reopen"
-    return (st, o)
+    return ({ st with reopened := st.clean }, o)
   else if op == "batch" then
     let evs ← asList event (← fld j "events")
     o := { o with nontrivial := !evs.isEmpty }
@@ -48,7 +50,7 @@ def step (st : St) (j : Json) : Except String (St × Drv.Out) := do
       o := o.tag (match SqliteSpec.cls e.kind with
         | .regular => if e.kind == 5 then "event.deletion" else "event.regular"
         | .replaceable => "event.replaceable" | .ephemeral => "event.ephemeral" | .addressable => "event.addressable")
-    return ({ db := st.db.insertBatch evs, hist := st.hist ++ evs }, o)
+    return ({ st with db := st.db.insertBatch evs, hist := st.hist ++ evs, clean := st.clean && o.diffs.isEmpty }, o)
   else if op == "query" then
     let fs ← asList filter (← fld j "filters")
     let out ← fld j "out"
@@ -71,9 +73,13 @@ def step (st : St) (j : Json) : Except String (St × Drv.Out) := do
         let bad := SqliteSpec.judgeAnswer cands got
         if !bad.isEmpty then
           o := o.diff s!"query {(jList filterJ fs).compress}: answer {got.map (·.id)} is not an answer of the model's tables: {bad.map (·.2)}"
+          -- closing and reopening is the identity for every answer (C14): model and database agreed on everything up
+          -- to the reopen, the model did nothing at the reopen, and now they differ
+          if st.reopened then
+            o := o.mon "answer" "differs-after-reopen" s!"query {(jList filterJ fs).compress}: after a close/reopen the answer {got.map (·.id)} is not what the tables held before the reopen give ({bad.map (·.2)}); before the reopen every answer agreed"
         for (cls, msg) in SqliteSpec.judgeAnswer (SqliteSpec.owed st.hist fs got) got do
           o := o.mon "answer" cls s!"query {(jList filterJ fs).compress}: {msg}"
-    return (st, o)
+    return ({ st with clean := st.clean && o.diffs.isEmpty }, o)
   else throw s!"unknown op {op}"
 
 def handler : Drv.Handler := { σ := St, init := {}, step := step }
